@@ -116,16 +116,36 @@ func init() {
 				chunkBytes("JS", []byte("empty"), 0, []byte{1, 2, 3}), chunkBytes("JS", []byte("empty"), 3, []byte{4}), ctl(0x1212, body1211([]byte("empty"), 0, 0))}, false},
 			{"file-announced-with-size-0-and-an-empty-chunk", [][]byte{ctl(0x1210, body1210("JS", r, []aFile{{[]byte("empty"), nil}})), chunkBytes("JS", []byte("empty"), 0, nil), ctl(0x1212, body1211([]byte("empty"), 0, 0))}, false},
 			{"1212-announcing-another-size-than-1210", [][]byte{ctl(0x1210, body1210("JS", r, []aFile{{[]byte("sz"), make([]byte, 40)}})), chunkBytes("JS", []byte("sz"), 0, make([]byte, 10)), ctl(0x1212, body1211([]byte("sz"), 0, 0)), ctl(0x1212, body1211([]byte("sz"), 0, 1<<31))}, false},
+			{"fast:pipelined-control-frames-then-reset", [][]byte{func() []byte {
+				b := ctl(0x1210, body1210("JS", r, []aFile{{[]byte("p"), make([]byte, 30)}}))
+				for k := 0; k < 40; k++ {
+					b = append(b, ctl(0x1211, body1211([]byte("p"), 0, 30))...)
+					b = append(b, ctl(0x1212, body1211([]byte("p"), 0, 30))...)
+				}
+				return b
+			}()}, true},
+			{"fast:pipelined-control-frames-then-close", [][]byte{func() []byte {
+				b := ctl(0x1210, body1210("JS", r, []aFile{{[]byte("q"), make([]byte, 30)}}))
+				for k := 0; k < 40; k++ {
+					b = append(b, ctl(0x1212, body1211([]byte("q"), 0, 30))...)
+				}
+				return b
+			}()}, false},
 			{"name-with-dotdot", [][]byte{ctl(0x1210, body1210("JS", r, []aFile{{[]byte("../../escape"), []byte{1}}})), ctl(0x1211, body1211([]byte("../../escape"), 0, 1)), chunkBytes("JS", []byte("../../escape"), 0, []byte{7}), ctl(0x1212, body1211([]byte("../../escape"), 0, 1))}, false},
 		}
 		for i, h := range hostile {
 			c, err := net.Dial("tcp", addr)
 			if err == nil {
+				fast := strings.HasPrefix(h.name, "fast:") // everything at once, gone before the first reply can be written
 				for _, s := range h.sends {
 					c.Write(s)
-					time.Sleep(time.Millisecond)
+					if !fast {
+						time.Sleep(time.Millisecond)
+					}
 				}
-				time.Sleep(5 * time.Millisecond)
+				if !fast {
+					time.Sleep(5 * time.Millisecond)
+				}
 				if h.reset {
 					c.(*net.TCPConn).SetLinger(0)
 				}
@@ -194,7 +214,12 @@ func init() {
 			time.Sleep(3 * time.Millisecond)
 		}
 		finish := func(s *sess) {
-			ctl(s, 0x1212, body1211(s.name, 0, len(s.content)))
+			// the completion request and, right behind it in the same segment, the file's chunk once more (a retransmission that
+			// crossed the 0x1212: an exact resend changes nothing)
+			s.ser++
+			last := buildFrame(hdrSpec{id: 0x1212, serial: s.ser, phone: s.phone, body: body1211(s.name, 0, len(s.content))})
+			s.c.Write(append(last, chunkBytes("JS", s.name, 0, s.content)...))
+			time.Sleep(5 * time.Millisecond)
 			// read the three replies before closing (unread data at close turns the FIN into a reset)
 			buf := make([]byte, 4096)
 			var acc []byte
